@@ -17,7 +17,8 @@ MANIFEST = dict(
          "count, then fence events seen by every open lister and every entitled handler); the recorded observations (active "
          "WATCHes, LIST calls, lister contents, events per handler, events after removal) are validated by TLC against "
          "spec/TraceInformers.tla, which evaluates the SAME clause definitions as monitors. Thorough: the same operations from "
-         "concurrent goroutines under go test -race (C18_NoRace, C18_NoPanic, final state judged by the same clauses).",
+         "concurrent goroutines under go test -race (C18_NoRace, C18_NoPanic, final state judged by the same clauses)."
+         ' Composed operations: addev (an event arrives while a handler is being added), remev (handlers removed while an event is being broadcast), subx with a resource that discovery learns about only later (a failed subscribe must leave nothing behind).',
     ref="DESIGN.md §8 C18",
     tech="TLA+ model + TLC exhaustive check + TLC behaviour enumeration replayed on real code + TLC trace validation; "
          "Go race detector as observation device for the concurrent clause",
